@@ -164,6 +164,24 @@ def span_text(sp):
     return norm_ws(' '.join(parts))
 
 
+def _own_span(sp):
+    """a span inside a std macro (unreachable!, panic!, assert!) is replaced by the call site in the extracted file"""
+    cur = sp
+    for _ in range(8):
+        fname = str(cur.get('file_name', ''))
+        if '/verif-vx-' in fname or not (fname.startswith('/rustc/') or 'library/' in fname):
+            break
+        exp = cur.get('expansion')
+        if not exp or not exp.get('span'):
+            break
+        nxt = dict(exp['span'])
+        nxt['is_primary'] = sp.get('is_primary')
+        if not nxt.get('label'):
+            nxt['label'] = sp.get('label')
+        cur = nxt
+    return cur
+
+
 def classify(unit, data, diags, run):
     for d in diags:
         if d.get('level') != 'error':
@@ -176,7 +194,7 @@ def classify(unit, data, diags, run):
             if pat in msg:
                 kind = k
                 break
-        spans = d.get('spans', [])
+        spans = [_own_span(s_) for s_ in d.get('spans', [])]
         prim = next((s for s in spans if s.get('is_primary')), spans[0] if spans else None)
         if any(r in msg for r in RESOURCE_MSGS):
             run.resource_errors.append(norm_ws(d.get('rendered', msg))[:400])
@@ -247,7 +265,7 @@ def classify(unit, data, diags, run):
             if fn in unit.fns:
                 props = unit.fns[fn]['props']
             else:
-                props = lemma_props(unit, fn)
+                props = lemma_props(unit, fn, failing=True)
         oid = '%s/%s/%s/%s' % (run.name, fn, kind, detail)
         if kind == 'recommends':
             continue
@@ -256,7 +274,24 @@ def classify(unit, data, diags, run):
                              'repo_fn': unit.fns.get(fn, {}).get('path'), 'repo_file': unit.fns.get(fn, {}).get('file')})
 
 
-def lemma_props(unit, fn):
+def lemma_props(unit, fn, failing=False):
+    """a lemma / hand-written proof function counts for the properties it is tagged with (default: the unit's);
+    when it FAILS, everything of the unit that may call it is unproved: the failure carries every property of the unit"""
+    if failing:
+        allp = list(unit.unit_props)
+        for f in unit.fns.values():
+            for q in f['props']:
+                if q not in allp:
+                    allp.append(q)
+        for c in unit.clauses:
+            for q in c['props']:
+                if q not in allp:
+                    allp.append(q)
+        for v in unit.tmpl_props.values():
+            for q in v:
+                if q not in allp:
+                    allp.append(q)
+        return allp
     return list(unit.tmpl_props.get(fn.replace('tmpl::', ''), unit.unit_props))
 
 
